@@ -590,7 +590,7 @@ Proof.
   - unfold called. simpl. destruct (memb (hid h) ids) eqn:M.
     + unfold out1. destruct (act h st t) as [[st1 tm1] lw1] eqn:Ea.
       destruct (run_handlers S hid act c r ids t st1) as [[[st2 tm2] lw2] l2] eqn:E2. inversion E; subst.
-      destruct (IH _ _ _ _ _ _ _ E2) as [A [B C]]. simpl. rewrite Ea. simpl. fold (called ids r). rewrite <- A, <- B, <- C. auto.
+      destruct (IH _ _ _ _ _ _ _ E2) as [A [B C]]. simpl. unfold out1. rewrite Ea. simpl. unfold called in A, B, C. rewrite <- A, <- B, <- C. auto.
     + apply IH in E. exact E.
 Qed.
 End CHAIN.
@@ -631,7 +631,7 @@ Proof.
   exists l1, (run_reporters S (ss_reporters ss) (u_evids u) (a_tadv (u_ans u)) p'). rewrite app_nil_r.
   repeat split; auto.
   - apply run_reporters_log in H. tauto.
-  - clear -H. revert H. generalize (ss_reporters ss). induction l as [|r rs IH]; simpl; [intros []|].
+  - rewrite <- A. clear -H. revert H. generalize (ss_reporters ss). induction l as [|r rs IH]; simpl; [intros []|].
     destruct (memb (h_id r) (u_evids u)); simpl; [intros [<-|X]; auto|auto].
 Qed.
 
